@@ -352,7 +352,12 @@ def make_world(emg3d, rng, vti, mapping, nz=None):
                                             zs+10), strength=1.5)}
     recs = {'Rx-b': emg3d.RxElectricPoint((cx+310, cy+60, zs+20, 0., 0.)),
             'Rx-a': emg3d.RxMagneticPoint((cx-240, cy-180, zs-30, 45., 10.)),
-            'Rx-c': emg3d.RxElectricPoint((cx+150, cy-260, zs, 90., -20.))}
+            'Rx-c': emg3d.RxElectricPoint((cx+150, cy-260, zs, 90., -20.)),
+            # positioned relative to the centre of each source
+            'Rx-d': emg3d.RxElectricPoint((280., -90., 15., 20., 5.),
+                                          relative=True),
+            'Rx-e': emg3d.RxMagneticPoint((-200., 170., -10., 60., 0.),
+                                          relative=True)}
     freqs = {'f-1': 0.5, 'f-2': 2.0, 'f-3': 1.0}
     survey = emg3d.Survey(sources=srcs, receivers=recs, frequencies=freqs,
                           noise_floor=1e-17, relative_error=0.05)
@@ -366,7 +371,7 @@ def direct(empymod, grid, lay, src, rec, freqs):
     with warnings.catch_warnings():
         warnings.simplefilter('ignore')
         return empymod.bipole(
-            src=src.coordinates, rec=rec.coordinates,
+            src=src.coordinates, rec=rec.coordinates_abs(src),
             depth=grid.nodes_z[1:-1], res=1/cond_h, aniso=aniso,
             freqtime=np.asarray(freqs, float), msrc=src.xtype != 'electric',
             mrec=rec.xtype != 'electric', strength=src.strength, verb=1,
@@ -442,6 +447,59 @@ def suite_layered(ctx):
                 str(int(v)) for v in fin.reshape(-1)))
             meta.append((tag, br.calls, survey, grid, lay, fin))
             ctx.count(key=('layered', tag))
+    # laterally varying model: a receiver given relative to the source is the
+    # receiver at source centre + offset, for the extraction points too
+    for w in range(2 if ctx.thorough else 1):
+        grid = gen_grid(emg3d, rng, nz=3)
+        shp = grid.shape_cells
+        with warnings.catch_warnings():
+            warnings.simplefilter('ignore')
+            model = emg3d.Model(grid, property_x=10.0**rng.uniform(-1, 1, shp))
+        cx = float(grid.nodes_x[0] + grid.h[0].sum()*0.4)
+        cy = float(grid.nodes_y[0] + grid.h[1].sum()*0.55)
+        zs = float(grid.nodes_z[0] + grid.h[2].sum()*0.6)
+        lx, ly = float(grid.h[0].sum()), float(grid.h[1].sum())
+        srcs = [emg3d.TxElectricDipole((cx, cy, zs, 30., 10.)),
+                emg3d.TxElectricDipole((cx-0.1*lx, cx+0.05*lx, cy-0.05*ly,
+                                        cy+0.1*ly, zs, zs+5))]
+        offs = [(0.35*lx, -0.3*ly, 10., 20., 5.), (-0.2*lx, 0.3*ly, -5., 0, 0)]
+        for method in METHODS:
+            lopts = {'method': method}
+            if method in ('prism', 'cylinder'):
+                lopts['ellipse'] = gen_ellipse(rng, grid)
+            res = {}
+            for kind in ('relative', 'absolute'):
+                for si, src in enumerate(srcs):
+                    if kind == 'relative':
+                        recs = [emg3d.RxElectricPoint(o, relative=True)
+                                for o in offs]
+                    else:
+                        c = src.center
+                        recs = [emg3d.RxElectricPoint(
+                            (c[0]+o[0], c[1]+o[1], c[2]+o[2], o[3], o[4]))
+                            for o in offs]
+                    sv = emg3d.Survey(sources=src, receivers=recs,
+                                      frequencies=[0.5, 2.0])
+                    with warnings.catch_warnings():
+                        warnings.simplefilter('ignore')
+                        sim = emg3d.Simulation(
+                            survey=sv, model=model, layered=True,
+                            layered_opts=lopts, max_workers=1, verb=-1,
+                            tqdm_opts=False, gridding='same')
+                        sim.compute()
+                    res[kind, si] = sim.data.synthetic.data.copy()
+            for si in range(len(srcs)):
+                a, b = res['relative', si], res['absolute', si]
+                if not np.allclose(a, b, rtol=1e-9, atol=0):
+                    bad.append(('relative-receiver', method, si))
+                    ctx.violation(
+                        'layered-relative-receiver',
+                        f'layered ({method}, laterally varying model): '
+                        f'receivers at offsets {offs} relative to source '
+                        f'{si} give {a.ravel().tolist()}, the same receivers '
+                        f'given absolutely {b.ravel().tolist()}',
+                        {'method': method, 'source': si})
+            ctx.count(key=('layered-relative', w, method))
     out = common.run_driver(lines, timeout=300)
     for (tag, calls, survey, grid, lay, fin), o in zip(meta, out):
         used = [[int(x) for x in part.split()] for part in o.split('|')]
@@ -461,7 +519,7 @@ def suite_layered(ctx):
                 ok &= np.allclose(np.asarray(c['src'], float),
                                   np.asarray(src.coordinates, float))
                 ok &= np.allclose(np.asarray(c['rec'], float),
-                                  np.asarray(rec.coordinates, float))
+                                  np.asarray(rec.coordinates_abs(src), float))
                 ok &= bool(c['msrc']) == (src.xtype != 'electric')
                 ok &= bool(c['mrec']) == (rec.xtype != 'electric')
                 ok &= c['strength'] == src.strength
